@@ -106,6 +106,9 @@ def build_data(case):
     n = case["n"]
     vals = [v + ((i * 37) % 11) / 7.0 for i, v in enumerate(case["values"][:n])]
     y = gen.build_series(vals, case["start"], case["index_kind"])
+    if case.get("int_dtype"):
+        # counts stored with an integer dtype: forecasts of them are still real numbers
+        y = pd.Series(np.round(y.to_numpy()).astype("int64"), index=y.index)
     X = None
     if case["with_X"]:
         X = pd.DataFrame({"a": np.cos(np.arange(n) * 0.7) * 3.0 + 10.0, "b": (np.arange(n) % 5) * 1.0}, index=y.index)
@@ -268,7 +271,7 @@ def cases(draw):
         "start": draw(gen.index_start), "index_kind": draw(gen.index_kind),
         "with_X": with_X, "strategy": draw(st.sampled_from(["refit", "update"])),
         "metric": draw(st.sampled_from(["smape", "mape_asym", "signed", "ratio", "mse"])),
-        "return_data": draw(st.booleans()), "prefit": draw(st.integers(0, 3)) == 0,
+        "return_data": draw(st.booleans()), "prefit": draw(st.integers(0, 3)) == 0, "int_dtype": draw(st.integers(0, 3)) == 0,
     }
 
 
